@@ -11,6 +11,7 @@ import (
 	"sort"
 	"strings"
 	"sync"
+	"sync/atomic"
 	"time"
 
 	"google.golang.org/grpc"
@@ -40,6 +41,10 @@ type stubStream struct {
 	closeOnce  sync.Once
 	// gate, when non-nil, makes every Send wait for a token (to hold the sender)
 	gate chan struct{}
+	// recvCalls counts entries into Recv: the receiver is back waiting for the next message
+	recvCalls atomic.Int64
+	// recvReturns counts the items handed to the client by Recv
+	recvReturns atomic.Int64
 }
 
 func newStubStream(ctx context.Context) *stubStream {
@@ -65,8 +70,10 @@ func (s *stubStream) Send(m *spb.ModifyRequest) error {
 }
 
 func (s *stubStream) Recv() (*spb.ModifyResponse, error) {
+	s.recvCalls.Add(1)
 	select {
 	case it := <-s.recvCh:
+		s.recvReturns.Add(1)
 		return it.resp, it.err
 	case <-s.closed:
 		return nil, io.EOF
